@@ -154,28 +154,49 @@ def DiagOK (H : Ham) (bw : Option BW) (β : Rat) : Prop :=
   | none => MetroSigns H β
   | some t => TableOK H t
 
-/-- `QmcIsingGraph::timestep` without its cluster / RVB part (equivalently `single_diagonal_step`
-followed by the refresh): diagonal sweep with the sampler's cutoff, free-spin refresh, growth rule
-`cutoff = max(cutoff, n + n/2 + 1)` on the new operator count. -/
-def isingStepNoCluster (H : Ham) (bw : Option BW) (β : Rat) (s : Sampler) (rs : RS) : Sampler × RS :=
+/-- A full `timestep` with the spin-only middle part left abstract: diagonal sweep with the sampler's
+cutoff; `mid` (cluster update, loop update, spin part of RVB, … or nothing); free-spin refresh; growth
+rule `cutoff = max(cutoff, n + n/2 + 1)` on the new operator count. -/
+def samplerStepWith (mid : Config → RS → Config × RS) (H : Ham) (bw : Option BW) (β : Rat) (s : Sampler)
+    (rs : RS) : Sampler × RS :=
   let d := diagUpdate H bw β s.cutoff s.cfg rs
-  let r := freeRefresh d.1 d.2
+  let m := mid d.1 d.2
+  let r := freeRefresh m.1 m.2
   ({ cutoff := nextCutoff s.cutoff (countOps r.1.slots), cfg := r.1 }, r.2)
 
+/-- `QmcIsingGraph::timestep` without its cluster / RVB part (equivalently `single_diagonal_step`
+followed by the refresh): sweep ; refresh ; cutoff rule. -/
+def isingStepNoCluster (H : Ham) (bw : Option BW) (β : Rat) (s : Sampler) (rs : RS) : Sampler × RS :=
+  samplerStepWith (fun c rs => (c, rs)) H bw β s rs
+
+/-- what the middle part has to be, on configurations with `n` variables that are consistent and
+legal: a spin-only update (same skeleton, link-closed flip set) that keeps every changed matrix element
+positive — i.e. a `Step.flip` of C06/C07 -/
+def MidOK (H : Ham) (n : Nat) (mid : Config → RS → Config × RS) : Prop :=
+  ∀ c rs, c.state.length = n → Consistent c → Legal H c →
+    SpinFlipStep c (mid c rs).1 ∧ FlipKeepsWeight H c.slots (mid c rs).1.slots
+
 /-- the samplers after each step of a run (one `β` per step, one RNG threaded through) -/
-def runTrace (H : Ham) (bw : Option BW) : List Rat → Sampler → RS → List Sampler
+def runTraceWith (mid : Config → RS → Config × RS) (H : Ham) (bw : Option BW) :
+    List Rat → Sampler → RS → List Sampler
   | [], _, _ => []
   | β :: t, s, rs =>
-    let r := isingStepNoCluster H bw β s rs
-    r.1 :: runTrace H bw t r.1 r.2
+    let r := samplerStepWith mid H bw β s rs
+    r.1 :: runTraceWith mid H bw t r.1 r.2
 
-/-- the same run as a C06 history: two entries per step (after the sweep, after the refresh) -/
-def runHistory (H : Ham) (bw : Option BW) : List Rat → Sampler → RS → List (Ham × Config)
+/-- the same run as a C06 history: three entries per step (after the sweep, after `mid`, after the
+refresh) -/
+def runHistoryWith (mid : Config → RS → Config × RS) (H : Ham) (bw : Option BW) :
+    List Rat → Sampler → RS → List (Ham × Config)
   | [], _, _ => []
   | β :: t, s, rs =>
     let d := diagUpdate H bw β s.cutoff s.cfg rs
-    let r := isingStepNoCluster H bw β s rs
-    (H, d.1) :: (H, r.1.cfg) :: runHistory H bw t r.1 r.2
+    let m := mid d.1 d.2
+    let r := samplerStepWith mid H bw β s rs
+    (H, d.1) :: (H, m.1) :: (H, r.1.cfg) :: runHistoryWith mid H bw t r.1 r.2
+
+def runTrace := runTraceWith (fun c rs => (c, rs))
+def runHistory := runHistoryWith (fun c rs => (c, rs))
 
 theorem diagUpdate_is_diagSweepStep (H : Ham) (bw : Option BW) (β : Rat) (h : DiagOK H bw β)
     (cutoff : Nat) (c : Config) (rs : RS) : DiagSweepStep H cutoff c (diagUpdate H bw β cutoff c rs).1 := by
@@ -189,73 +210,102 @@ theorem diagUpdate_length (H : Ham) (bw : Option BW) (β : Rat) (cutoff : Nat) (
   | none => exact sweep_length _ cutoff c rs
   | some t => exact sweep_length _ cutoff c rs
 
-/-- what one sampler step is and keeps: two public calls in the sense of C06/C07, and all invariants -/
-theorem isingStep_spec (H : Ham) (n : Nat) (hH : HamWF H n) (bw : Option BW) (β : Rat)
+/-- doing nothing is an admissible middle part -/
+theorem midOK_id (H : Ham) (n : Nat) (hH : HamWF H n) : MidOK H n (fun c rs => (c, rs)) := by
+  intro c rs hn _ hl
+  exact ⟨free_spinFlip H n hH c c hn hl ⟨rfl, rfl, fun _ _ => rfl⟩, flipKeepsWeight_refl H c.slots⟩
+
+/-- what one sampler step is and keeps: three public calls in the sense of C06/C07, and all invariants -/
+theorem samplerStep_spec (mid : Config → RS → Config × RS) (H : Ham) (n : Nat) (hH : HamWF H n)
+    (hmid : MidOK H n mid) (bw : Option BW) (β : Rat)
     (hd : DiagOK H bw β) (s : Sampler) (rs : RS) (hn : s.cfg.state.length = n)
     (hinv : s.cfg.slots.length ≤ s.cutoff) (hc : Consistent s.cfg) (hl : Legal H s.cfg) :
     let d := diagUpdate H bw β s.cutoff s.cfg rs
-    let r := isingStepNoCluster H bw β s rs
-    Step H s.cfg d.1 ∧ Step H d.1 r.1.cfg ∧
+    let m := mid d.1 d.2
+    let r := samplerStepWith mid H bw β s rs
+    Step H s.cfg d.1 ∧ Step H d.1 m.1 ∧ Step H m.1 r.1.cfg ∧
+    (d.1.state.length = n ∧ Consistent d.1 ∧ Legal H d.1) ∧
     r.1.cfg.state.length = n ∧ r.1.cfg.slots.length ≤ r.1.cutoff ∧ Consistent r.1.cfg ∧ Legal H r.1.cfg := by
-  intro d r
+  intro d m r
   have h1 : Step H s.cfg d.1 := Step.diag s.cutoff hinv (diagUpdate_is_diagSweepStep H bw β hd _ _ _)
   obtain ⟨c1, l1, n1⟩ := step_pres H n hH _ _ h1 hn hc hl
-  have h2 : Step H d.1 r.1.cfg := freeRefresh_is_step H n hH d.1 d.2 n1 l1
+  obtain ⟨hm1, hm2⟩ := hmid d.1 d.2 n1 c1 l1
+  have h2 : Step H d.1 m.1 := Step.flip hm1 hm2
   obtain ⟨c2, l2, n2⟩ := step_pres H n hH _ _ h2 n1 c1 l1
-  refine ⟨h1, h2, n2, ?_, c2, l2⟩
-  have hlen : r.1.cfg.slots.length = max s.cfg.slots.length s.cutoff :=
-    diagUpdate_length H bw β s.cutoff s.cfg rs
+  have h3 : Step H m.1 r.1.cfg := freeRefresh_is_step H n hH m.1 m.2 n2 l2
+  obtain ⟨c3, l3, n3⟩ := step_pres H n hH _ _ h3 n2 c2 l2
+  refine ⟨h1, h2, h3, ⟨n1, c1, l1⟩, n3, ?_, c3, l3⟩
+  have hlen : r.1.cfg.slots.length = max s.cfg.slots.length s.cutoff := by
+    have e1 : r.1.cfg.slots.length = m.1.slots.length := rfl
+    rw [e1, sameSkeleton_length hm1.2.1]
+    exact diagUpdate_length H bw β s.cutoff s.cfg rs
   rw [hlen]
   have := nextCutoff_ge_left s.cutoff (countOps r.1.cfg.slots)
   show max s.cfg.slots.length s.cutoff ≤ nextCutoff s.cutoff (countOps r.1.cfg.slots)
   omega
 
-/-- **`sampler_step_history`**: any number of sampler steps, with any temperatures and any script,
-from a consistent legal configuration whose container is not longer than the cutoff, is a `History`
-of `Step`s of C06/C07. -/
-theorem sampler_step_history (H : Ham) (n : Nat) (hH : HamWF H n) (bw : Option BW) :
+/-- any number of full sampler steps with an admissible middle part is a `History` of `Step`s -/
+theorem sampler_step_history_with (mid : Config → RS → Config × RS) (H : Ham) (n : Nat) (hH : HamWF H n)
+    (hmid : MidOK H n mid) (bw : Option BW) :
     ∀ (βs : List Rat) (s : Sampler) (rs : RS), (∀ β ∈ βs, DiagOK H bw β) →
       s.cfg.state.length = n → s.cfg.slots.length ≤ s.cutoff → Consistent s.cfg → Legal H s.cfg →
-      History n H s.cfg (runHistory H bw βs s rs)
+      History n H s.cfg (runHistoryWith mid H bw βs s rs)
   | [], _, _, _, _, _, _, _ => trivial
   | β :: t, s, rs, hd, hn, hinv, hc, hl => by
-    obtain ⟨h1, h2, n2, i2, c2, l2⟩ :=
-      isingStep_spec H n hH bw β (hd β (List.mem_cons_self ..)) s rs hn hinv hc hl
-    exact ⟨Or.inl ⟨rfl, h1⟩, Or.inl ⟨rfl, h2⟩,
-      sampler_step_history H n hH bw t _ _ (fun b hb => hd b (List.mem_cons_of_mem _ hb)) n2 i2 c2 l2⟩
+    obtain ⟨h1, h2, h3, _, n2, i2, c2, l2⟩ :=
+      samplerStep_spec mid H n hH hmid bw β (hd β (List.mem_cons_self ..)) s rs hn hinv hc hl
+    exact ⟨Or.inl ⟨rfl, h1⟩, Or.inl ⟨rfl, h2⟩, Or.inl ⟨rfl, h3⟩,
+      sampler_step_history_with mid H n hH hmid bw t _ _
+        (fun b hb => hd b (List.mem_cons_of_mem _ hb)) n2 i2 c2 l2⟩
+
+/-- **`sampler_step_history`**: any number of steps `sweep ; refresh ; cutoff rule`, with any
+temperatures and any script, from a consistent legal configuration whose container is not longer than
+the cutoff, is a `History` of `Step`s of C06/C07. -/
+theorem sampler_step_history (H : Ham) (n : Nat) (hH : HamWF H n) (bw : Option BW)
+    (βs : List Rat) (s : Sampler) (rs : RS) (hd : ∀ β ∈ βs, DiagOK H bw β)
+    (hn : s.cfg.state.length = n) (hinv : s.cfg.slots.length ≤ s.cutoff) (hc : Consistent s.cfg)
+    (hl : Legal H s.cfg) : History n H s.cfg (runHistory H bw βs s rs) :=
+  sampler_step_history_with _ H n hH (midOK_id H n hH) bw βs s rs hd hn hinv hc hl
 
 /-- every sampler of the trace shows up in the history -/
-theorem runTrace_sub_history (H : Ham) (bw : Option BW) : ∀ (βs : List Rat) (s : Sampler) (rs : RS)
-    (t : Sampler), t ∈ runTrace H bw βs s rs → (H, t.cfg) ∈ runHistory H bw βs s rs
-  | [], _, _, _, h => by simp [runTrace] at h
+theorem runTrace_sub_history (mid : Config → RS → Config × RS) (H : Ham) (bw : Option BW) :
+    ∀ (βs : List Rat) (s : Sampler) (rs : RS) (t : Sampler), t ∈ runTraceWith mid H bw βs s rs →
+      (H, t.cfg) ∈ runHistoryWith mid H bw βs s rs
+  | [], _, _, _, h => by simp [runTraceWith] at h
   | β :: r, s, rs, t, h => by
-    simp only [runTrace, List.mem_cons] at h
-    simp only [runHistory, List.mem_cons]
+    simp only [runTraceWith, List.mem_cons] at h
+    simp only [runHistoryWith, List.mem_cons]
     rcases h with h | h
-    · right; left; rw [h]
-    · right; right; exact runTrace_sub_history H bw r _ _ t h
+    · right; right; left; rw [h]
+    · right; right; right; exact runTrace_sub_history mid H bw r _ _ t h
 
 /-! ### the occupancy abstraction: C06's sweep relation is C12's sweep shape -/
 
 /-- which slots hold an operator (what C12's `CSampler.occ` records) -/
-def occ (s : Slots) : List Bool := s.map Option.isSome
+def occOf (s : Slots) : List Bool := s.map Option.isSome
 
 /-- the C12 view of a sampler -/
-def Sampler.abs (s : Sampler) : CSampler := { cutoff := s.cutoff, occ := occ s.cfg.slots }
+def Sampler.abs (s : Sampler) : CSampler := { cutoff := s.cutoff, occ := occOf s.cfg.slots }
 
-theorem countOcc_occ (s : Slots) : countOcc (occ s) = countOps s := by
-  unfold countOcc occ countOps
+theorem countOcc_occ (s : Slots) : countOcc (occOf s) = countOps s := by
+  unfold countOcc occOf countOps
   induction s with
   | nil => rfl
   | cons x t ih => cases x <;> simp_all
 
-theorem growOcc_occ (s : Slots) (L : Nat) : growOcc (occ s) L = occ (padTo s L) := by
-  simp [growOcc, occ, padTo]
+theorem growOcc_occ (s : Slots) (L : Nat) : growOcc (occOf s) L = occOf (padTo s L) := by
+  simp [growOcc, occOf, padTo]
+
+theorem sameSkeleton_occ {b a : Slots} (h : SameSkeleton b a) : occOf a = occOf b := by
+  induction h with
+  | nil => rfl
+  | none _ ih => simpa [occOf] using ih
+  | some _ _ _ _ _ ih => simpa [occOf] using ih
 
 /-- **a `DiagSweepStep` has the shape C12 demands of a sweep**: container grown to the cutoff, slots
 at or above the cutoff untouched -/
 theorem diagSweepStep_isSweepResult (H : Ham) (L : Nat) (b a : Config) (h : DiagSweepStep H L b a) :
-    isSweepResult L (occ b.slots) (occ a.slots) = true := by
+    isSweepResult L (occOf b.slots) (occOf a.slots) = true := by
   obtain ⟨h1, h2⟩ := h
   have hl := diagSlots_length h1
   have hlen : a.slots.length = (padTo b.slots L).length := by
@@ -265,34 +315,74 @@ theorem diagSweepStep_isSweepResult (H : Ham) (L : Nat) (b a : Config) (h : Diag
   rw [Bool.and_eq_true]
   constructor
   · rw [beq_iff_eq, growLen_eq_max]
-    simp only [occ, List.length_map, hlen, padTo, List.length_append, List.length_replicate]
+    simp only [occOf, List.length_map, hlen, padTo, List.length_append, List.length_replicate]
     omega
   · rw [beq_iff_eq, growOcc_occ]
-    simp only [occ, ← List.map_drop, h2]
+    simp only [occOf, ← List.map_drop, h2]
 
 /-- one sampler step is one `CSampler.timestep` of C12 for some slot decisions -/
-theorem isingStep_abs (H : Ham) (bw : Option BW) (β : Rat) (hd : DiagOK H bw β) (s : Sampler) (rs : RS) :
-    ∃ d, (isingStepNoCluster H bw β s rs).1.abs = CSampler.timestep d s.abs := by
+theorem samplerStep_abs (mid : Config → RS → Config × RS) (H : Ham) (n : Nat) (hH : HamWF H n)
+    (hmid : MidOK H n mid) (bw : Option BW) (β : Rat) (hd : DiagOK H bw β) (s : Sampler) (rs : RS)
+    (hn : s.cfg.state.length = n) (hinv : s.cfg.slots.length ≤ s.cutoff) (hc : Consistent s.cfg)
+    (hl : Legal H s.cfg) :
+    ∃ d, (samplerStepWith mid H bw β s rs).1.abs = CSampler.timestep d s.abs := by
   have hstep := diagUpdate_is_diagSweepStep H bw β hd s.cutoff s.cfg rs
   obtain ⟨d, hd'⟩ := isSweepResult_complete _ _ _ (diagSweepStep_isSweepResult H _ _ _ hstep)
   refine ⟨d, ?_⟩
-  have hslots : (isingStepNoCluster H bw β s rs).1.cfg.slots = (diagUpdate H bw β s.cutoff s.cfg rs).1.slots := rfl
+  obtain ⟨_, _, _, ⟨n1, c1, l1⟩, _⟩ := samplerStep_spec mid H n hH hmid bw β hd s rs hn hinv hc hl
+  have hm := (hmid _ (diagUpdate H bw β s.cutoff s.cfg rs).2 n1 c1 l1).1
+  have hslots : occOf (samplerStepWith mid H bw β s rs).1.cfg.slots
+      = occOf (diagUpdate H bw β s.cutoff s.cfg rs).1.slots := sameSkeleton_occ hm.2.1
+  have hcount : countOps (samplerStepWith mid H bw β s rs).1.cfg.slots
+      = countOcc (occOf (diagUpdate H bw β s.cutoff s.cfg rs).1.slots) := by
+    rw [← hslots, countOcc_occ]
   unfold Sampler.abs CSampler.timestep CSampler.diagStep CSampler.diagStepWith
-  simp only [hslots]
-  rw [hd', countOcc_occ]
-  rfl
+  simp only
+  rw [hd', hslots]
+  show CSampler.mk (nextCutoff s.cutoff (countOps (samplerStepWith mid H bw β s rs).1.cfg.slots)) _ = _
+  rw [hcount]
 
-theorem runTrace_abs (H : Ham) (bw : Option BW) : ∀ (βs : List Rat) (s : Sampler) (rs : RS),
+theorem runTrace_abs (mid : Config → RS → Config × RS) (H : Ham) (n : Nat) (hH : HamWF H n)
+    (hmid : MidOK H n mid) (bw : Option BW) : ∀ (βs : List Rat) (s : Sampler) (rs : RS),
     (∀ β ∈ βs, DiagOK H bw β) →
-    ∃ ds, (runTrace H bw βs s rs).map Sampler.abs = CSampler.trace ds s.abs
-  | [], _, _, _ => ⟨[], rfl⟩
-  | β :: t, s, rs, hd => by
-    obtain ⟨d, h1⟩ := isingStep_abs H bw β (hd β (List.mem_cons_self ..)) s rs
-    obtain ⟨ds, h2⟩ := runTrace_abs H bw t (isingStepNoCluster H bw β s rs).1
-      (isingStepNoCluster H bw β s rs).2 (fun b hb => hd b (List.mem_cons_of_mem _ hb))
+    s.cfg.state.length = n → s.cfg.slots.length ≤ s.cutoff → Consistent s.cfg → Legal H s.cfg →
+    ∃ ds, (runTraceWith mid H bw βs s rs).map Sampler.abs = CSampler.trace ds s.abs
+  | [], _, _, _, _, _, _, _ => ⟨[], rfl⟩
+  | β :: t, s, rs, hd, hn, hinv, hc, hl => by
+    have hβ := hd β (List.mem_cons_self ..)
+    obtain ⟨d, h1⟩ := samplerStep_abs mid H n hH hmid bw β hβ s rs hn hinv hc hl
+    obtain ⟨_, _, _, _, n2, i2, c2, l2⟩ := samplerStep_spec mid H n hH hmid bw β hβ s rs hn hinv hc hl
+    obtain ⟨ds, h2⟩ := runTrace_abs mid H n hH hmid bw t (samplerStepWith mid H bw β s rs).1
+      (samplerStepWith mid H bw β s rs).2 (fun b hb => hd b (List.mem_cons_of_mem _ hb)) n2 i2 c2 l2
     refine ⟨d :: ds, ?_⟩
-    simp only [runTrace, List.map_cons, CSampler.trace]
+    simp only [runTraceWith, List.map_cons, CSampler.trace]
     rw [h2, h1]
+
+/-- the combined invariant for full time steps with any admissible spin-only middle part -/
+theorem run_consistent_legal_headroom_with (mid : Config → RS → Config × RS) (H : Ham) (n : Nat)
+    (hH : HamWF H n) (hmid : MidOK H n mid) (bw : Option BW)
+    (βs : List Rat) (s : Sampler) (rs : RS) (hd : ∀ β ∈ βs, DiagOK H bw β)
+    (hn : s.cfg.state.length = n) (hinv : s.cfg.slots.length ≤ s.cutoff)
+    (hc : Consistent s.cfg) (hl : Legal H s.cfg) :
+    ∀ t ∈ runTraceWith mid H bw βs s rs,
+      Consistent t.cfg ∧ Legal H t.cfg ∧ t.cfg.slots.length ≤ t.cutoff ∧ s.cutoff ≤ t.cutoff ∧
+      countOps t.cfg.slots < t.cutoff ∧ countOps t.cfg.slots + countOps t.cfg.slots / 2 + 1 ≤ t.cutoff := by
+  intro t ht
+  have hist := sampler_step_history_with mid H n hH hmid bw βs s rs hd hn hinv hc hl
+  obtain ⟨c1, l1⟩ := Qmc.C06.reachable_inv n _ H s.cfg hH hn hc hl hist (H, t.cfg)
+    (runTrace_sub_history mid H bw βs s rs t ht)
+  obtain ⟨ds, hds⟩ := runTrace_abs mid H n hH hmid bw βs s rs hd hn hinv hc hl
+  have hmem : t.abs ∈ CSampler.trace ds s.abs := by
+    rw [← hds]; exact List.mem_map_of_mem ht
+  have hinv' : s.abs.Inv := by
+    unfold CSampler.Inv CSampler.len Sampler.abs occOf
+    simpa using hinv
+  obtain ⟨i1, i2, i3, i4⟩ := Qmc.C12.run_invariant ds s.abs hinv' t.abs hmem
+  have hnn : t.abs.n = countOps t.cfg.slots := countOcc_occ _
+  rw [hnn] at i3 i4
+  refine ⟨c1, l1, ?_, i2, i3, i4⟩
+  unfold CSampler.Inv CSampler.len Sampler.abs occOf at i1
+  simpa using i1
 
 /-- **`run_consistent_legal_headroom`** — the world-line invariants (C06, C07) and the cutoff invariant
 (C12) in one statement about the exact update functions. Start: any sampler whose configuration is
@@ -300,32 +390,16 @@ consistent and legal for a well-formed Hamiltonian and whose container is not lo
 (every constructor of the library: empty string, `C06.init_consistent_legal`,
 `C12.library_samplers_start_valid`). Run: any number of steps `sweep ; refresh ; cutoff rule`
 (Metropolis or heat bath), any temperatures satisfying the sign hypothesis, ANY RNG script. Then
-after every step: the configuration is consistent and legal, the number of variables is unchanged, the
-container fits under the cutoff (so the next sweep covers the whole string — the hypothesis of
-`diagSweep_pres`), the cutoff never fell below the starting one, at least one slot is free and the
-margin is `n/2 + 1`. -/
+after every step: the configuration is consistent and legal, the container fits under the cutoff (so
+the next sweep covers the whole string — the hypothesis of `diagSweep_pres`), the cutoff never fell
+below the starting one, at least one slot is free and the margin is `n/2 + 1`. -/
 theorem run_consistent_legal_headroom (H : Ham) (n : Nat) (hH : HamWF H n) (bw : Option BW)
     (βs : List Rat) (s : Sampler) (rs : RS) (hd : ∀ β ∈ βs, DiagOK H bw β)
     (hn : s.cfg.state.length = n) (hinv : s.cfg.slots.length ≤ s.cutoff)
     (hc : Consistent s.cfg) (hl : Legal H s.cfg) :
     ∀ t ∈ runTrace H bw βs s rs,
       Consistent t.cfg ∧ Legal H t.cfg ∧ t.cfg.slots.length ≤ t.cutoff ∧ s.cutoff ≤ t.cutoff ∧
-      countOps t.cfg.slots < t.cutoff ∧ countOps t.cfg.slots + countOps t.cfg.slots / 2 + 1 ≤ t.cutoff := by
-  intro t ht
-  have hist := sampler_step_history H n hH bw βs s rs hd hn hinv hc hl
-  obtain ⟨c1, l1⟩ := Qmc.C06.reachable_inv n _ H s.cfg hH hn hc hl hist (H, t.cfg)
-    (runTrace_sub_history H bw βs s rs t ht)
-  obtain ⟨ds, hds⟩ := runTrace_abs H bw βs s rs hd
-  have hmem : t.abs ∈ CSampler.trace ds s.abs := by
-    rw [← hds]; exact List.mem_map_of_mem ht
-  have hinv' : s.abs.Inv := by
-    unfold CSampler.Inv CSampler.len Sampler.abs occ
-    simpa using hinv
-  obtain ⟨i1, i2, i3, i4⟩ := Qmc.C12.run_invariant ds s.abs hinv' t.abs hmem
-  have hnn : t.abs.n = countOps t.cfg.slots := countOcc_occ _
-  rw [hnn] at i3 i4
-  refine ⟨c1, l1, ?_, i2, i3, i4⟩
-  unfold CSampler.Inv CSampler.len Sampler.abs occ at i1
-  simpa using i1
+      countOps t.cfg.slots < t.cutoff ∧ countOps t.cfg.slots + countOps t.cfg.slots / 2 + 1 ≤ t.cutoff :=
+  run_consistent_legal_headroom_with _ H n hH (midOK_id H n hH) bw βs s rs hd hn hinv hc hl
 
 end Qmc.Refine
